@@ -10,9 +10,10 @@ def check(tier):
     rep = Reporter(PID, tier)
     pvh = build_harness()
     lines = []
-    res = run_tlc("MC_PongoResolve", "MC_PongoResolve.cfg", timeout=3000, deadlock=False, vector_sink=lambda o: lines.append(json.dumps(o)))
-    require_model_ok(res, "MC_PongoResolve.cfg")       # NeverStuck: the rule set is total
-    rep.add_tlc("MC_PongoResolve.cfg", res)
+    cfg = "MC_PongoResolve.cfg" if tier == "quick" else "MC_PongoResolve_deep.cfg"      # (thorough: also plain paths of length 3)
+    res = run_tlc("MC_PongoResolve", cfg, timeout=3000, deadlock=False, vector_sink=lambda o: lines.append(json.dumps(o)))
+    require_model_ok(res, cfg)       # NeverStuck: the rule set is total
+    rep.add_tlc(cfg, res)
     r = run_harness(pvh, ["resolve-replay"], stdin_text="\n".join(lines) + "\n", timeout=3000)
     for v in r["violations"]:
         rep.violation(v["key"], v["detail"])
